@@ -157,7 +157,7 @@ def ceil_boundary_ambiguous(system):
         if isinstance(v, E.ExplainableHourlyQuantities):
             arr = np.asarray(v.value["value"].values._data, dtype=float)
             r = np.round(arr)
-            amb = (np.abs(arr - r) < 1e-9 * np.maximum(1.0, np.abs(arr))) & (arr != r)
+            amb = (np.abs(arr - r) < np.maximum(1e-9, 1e-11 * np.abs(arr))) & (arr != r)
             if np.any(amb):
                 return True
     return False
